@@ -50,6 +50,12 @@ func GenDamageScript(r *Rng, mode string, hist map[string]int) []string {
 		addRec(1+r.Intn(6), v, r.Pick(0, 0, 0, 1, 2), uint64(r.Pick(0, 0, 0, 9, 1<<40)))
 	}
 	out = append(out, "F close", "F reopen 0", "F save", "F scan", "F getall")
+	// truncations exactly at block boundaries (a multi-chunk record loses its continuation chunks while
+	// every chunk that is left is complete and valid)
+	for b := bs; b < size && b <= 3*bs; b += bs {
+		out = append(out, fmt.Sprintf("F trunc %d", b), "F scan", "F getall", "F restore")
+		hist["damage_trunc_at_block_boundary"]++
+	}
 	nd := 6 + r.Intn(10)
 	for i := 0; i < nd; i++ {
 		switch r.Intn(6) {
